@@ -53,7 +53,7 @@ func (c *Ctx) devModel() (*devModel, string) {
 	}
 	m := &devModel{fn: fn, kindVal: map[int64]string{}, kinds: map[string]int64{}}
 	m.find, _ = finds[0].(*ssa.Call)
-	m.target = finds[0].Value()
+	m.target = refinedTarget(finds[0].Value())
 	// deviation kind constants from the package scope
 	pkg := c.YangPkg()
 	for name, kw := range map[string]string{"DeviationNotSupported": "not-supported", "DeviationAdd": "add", "DeviationReplace": "replace", "DeviationDelete": "delete"} {
